@@ -1267,7 +1267,7 @@ func c20MErrClass(e interface{}) string {
 	}
 	s := fmt.Sprint(e)
 	switch {
-	case s == "EOF":
+	case s == "EOF" || strings.Contains(s, "closed pipe"):
 		return "eof"
 	case strings.Contains(s, "exceeds max size"):
 		return "toobig"
@@ -1297,7 +1297,7 @@ func c20StartReceiver(conn net.Conn, ds []c20Desc, maxp int) (*MConnection, *c20
 }
 
 // c20FeedReceiver writes the raw stream to a real started MConnection and reports deliveries and the error.
-func c20FeedReceiver(o *c20Out, ds []c20Desc, maxp int, stream []byte) (events [][2]interface{}, cls string) {
+func c20FeedReceiver(o *c20Out, ds []c20Desc, maxp int, stream []byte, pings bool) (events [][2]interface{}, cls string) {
 	server, client := net.Pipe()
 	b, rc := c20StartReceiver(server, ds, maxp)
 	go io.Copy(io.Discard, client) // pongs
@@ -1308,6 +1308,11 @@ func c20FeedReceiver(o *c20Out, ds []c20Desc, maxp int, stream []byte) (events [
 			break
 		}
 		stream = stream[k:]
+	}
+	if pings {
+		// let the pong(s) be flushed before the pipe is closed, so that the receiver ends with the
+		// EOF seen by its recvRoutine (after everything was processed), not a failed pong write
+		time.Sleep(20 * time.Millisecond)
 	}
 	client.Close()
 	select {
@@ -1559,7 +1564,7 @@ func c20MDCase(o *c20Out, idx int, r *c20Rand) {
 			}
 		}
 	}
-	events, cls := c20FeedReceiver(o, ds, maxp, stream)
+	events, cls := c20FeedReceiver(o, ds, maxp, stream, false)
 	c20EmitRX(o, events, cls)
 	qs := map[byte]int{}
 	for _, d := range ds {
@@ -1675,8 +1680,10 @@ func c20MRCase(o *c20Out, idx int, r *c20Rand) {
 		}
 	}
 	var raw []byte
+	pings := false
 	for _, p := range stream {
 		if r.Chance(1, 25) {
+			pings = true
 			o.InOnly("KPING")
 			var b bytes.Buffer
 			protoio.NewDelimitedWriter(&b).WriteMsg(mustWrapPacket(&kp2p.PacketPing{}))
@@ -1691,7 +1698,7 @@ func c20MRCase(o *c20Out, idx int, r *c20Rand) {
 		o.InOnly(fmt.Sprintf("K %d %s %s", p.ch, map[bool]string{true: "1", false: "0"}[p.eof], c20Hex(p.data)))
 		raw = append(raw, c20EncodePacket(&kp2p.PacketMsg{ChannelID: p.ch, EOF: p.eof, Data: p.data})...)
 	}
-	events, cls := c20FeedReceiver(o, ds, maxp, raw)
+	events, cls := c20FeedReceiver(o, ds, maxp, raw, pings)
 	c20EmitRX(o, events, cls)
 	if mut == "none" {
 		c20CheckDeliveries(o, ds, sent, events, cls, true, "")
